@@ -8,7 +8,7 @@
    theorems: the "within a few ulps" part of C02 is measured by the run of engines/scalar.py. *)
 From Coq Require Import Reals ZArith List Lra.
 From PV Require Import Scalar.ScalarBase Gen.ScalarGen Scalar.StableElem Scalar.Stable
-                       Scalar.StableBounds Scalar.FwSpec Scalar.Pown.
+                       Scalar.StableBounds Scalar.FwSpec Scalar.Pown Scalar.Ieee.
 Import ListNotations.
 Local Open Scope R_scope.
 
@@ -81,10 +81,13 @@ Theorem C02s_softplus_intermediates_bounded x :
 Proof. exact (softplus_intermediates_bounded x). Qed.
 Print Assumptions C02s_softplus_intermediates_bounded.
 
-Theorem C02s_sigmoid_intermediates_bounded x :
-  exp_args_nonpos [x] ast_fw_sigmoid /\ intermediates_within (Rabs x + 2) [x] ast_fw_sigmoid.
-Proof. exact (sigmoid_intermediates_bounded x). Qed.
-Print Assumptions C02s_sigmoid_intermediates_bounded.
+(* sigmoid: under IEEE overflow semantics with threshold M (float32: FLT_MAX) the generated formula
+   yields a finite number within 1/M of 1/(1+e^-x) for every |x| <= M -- no NaN, no infinite result,
+   whether it is written with tanh or as 1/(1+exp(-x)) *)
+Theorem C02s_sigmoid_ieee_finite M x : 4 <= M -> Rabs x <= M ->
+  exists r, xeval M [x] ast_fw_sigmoid = XF r /\ Rabs (r - 1 / (1 + exp (- x))) <= / M.
+Proof. exact (sigmoid_ieee_finite M x). Qed.
+Print Assumptions C02s_sigmoid_ieee_finite.
 
 Theorem C02s_logsumexp_step_intermediates_bounded t a :
   exp_args_nonpos [t; a] ast_fw_logsumexp_step /\
